@@ -2,6 +2,7 @@
 package props
 
 import (
+	_ "verifharness/internal/c02"
 	_ "verifharness/internal/c04"
 	_ "verifharness/internal/c05"
 	_ "verifharness/internal/c06"
